@@ -414,3 +414,35 @@ Definition jbn_clone (v : jval) : jval :=
     end
   | _ => v
   end.
+
+(* ---------------------------------------------------------------- jbl_ptr_serialize, jbl_ptr_cmp *)
+(* jbl_ptr_serialize: "/" and the bytes of each segment as stored in the parsed pointer - '~' and '/' inside a segment are NOT
+   written back as ~0 / ~1 *)
+Definition ptr_serialize (segs : list (list Z)) : list Z := flat_map (fun s => 47 :: s) segs.
+
+(* sign of strcmp on two segments (C strings without their terminators) *)
+Fixpoint strcmp_sgn (a b : list Z) : Z :=
+  match a, b with
+  | [], [] => 0
+  | [], _ :: _ => -1
+  | _ :: _, [] => 1
+  | x :: a', y :: b' => if x <? y then -1 else if y <? x then 1 else strcmp_sgn a' b'
+  end.
+
+Fixpoint segs_cmp (s1 s2 : list (list Z)) : Z :=
+  match s1, s2 with
+  | a :: r1, b :: r2 => let c := strcmp_sgn a b in if c =? 0 then segs_cmp r1 r2 else c
+  | _, _ => 0            (* the loop runs over p1->cnt segments; the counts are equal when it is reached *)
+  end.
+
+(* jbl_ptr_cmp(parse(path1), parse(path2)), as a sign; None: one of the texts is refused by jbl_ptr_alloc.
+   jp->sz = sizeof(struct jbl_ptr) + cnt * sizeof(char* ) + strlen(path) is compared first *)
+Definition ptr_cmp (path1 path2 : list Z) : option Z :=
+  match ptr_parse3 path1, ptr_parse3 path2 with
+  | POk s1, POk s2 =>
+    let d := (zlen s1 - zlen s2) * jbinn_sizeof_ptr + (zlen (cstr path1) - zlen (cstr path2)) in
+    if negb (d =? 0) then Some (Z.sgn d)
+    else if negb (zlen s1 =? zlen s2) then Some (Z.sgn (zlen s1 - zlen s2))
+    else Some (segs_cmp s1 s2)
+  | _, _ => None
+  end.
